@@ -56,6 +56,8 @@ def gen(rng, ctx):
         # no inputs: drop the mandatory i0 by turning it into a constant
         cd["nodes"] = [[n, (rng.choice(["0", "1"]) if t == "input" else t), o] for n, t, o in cd["nodes"]]
         kind = "no_startpoints"
+        if rng.random() < 0.5:
+            cd = G.add_cycles(rng, cd, rng.randint(1, 2))  # a loop may leave a non-startpoint variable undetermined
     elif rng.random() < 0.25:
         cd = G.add_blackboxes(rng, cd, 1, p_unconnected=rng.choice([0.0, 0.0, 0.4]))
         kind = "pins"
@@ -114,7 +116,7 @@ def brute_count(net, A):
 
 
 def parse_dimacs(text):
-    ind, clauses, header = [], [], None
+    ind, clauses, header = None, [], None  # ind stays None when no sampling set is declared at all
     for line in text.split("\n"):
         s = line.strip()
         if not s:
@@ -123,7 +125,7 @@ def parse_dimacs(text):
             toks = s.split()[2:]
             if toks[-1] != "0":
                 raise ValueError("c ind not terminated")
-            ind += [int(t) for t in toks[:-1]]
+            ind = (ind or []) + [int(t) for t in toks[:-1]]
         elif s.startswith("c"):
             continue
         elif s.startswith("p cnf"):
@@ -212,8 +214,12 @@ def decide(case, ctx, c, first):
                 ind, clauses, header = parse_dimacs(text)
             except ValueError as e:
                 ctx.violation("dimacs_syntax", f"unparsable DIMACS handed to approxmc: {e}: {text[:200]!r}")
-                ind = None
-            if ind is not None:
+                clauses = None
+            if clauses is not None and ind is None and header is not None:
+                # no `c ind` line: projected counters then count over ALL variables
+                ctx.count("dimacs_without_sampling_set")
+                ind = list(range(1, header[0] + 1))
+            if clauses is not None and ind is not None:
                 maxv = max([abs(l) for cl in clauses for l in cl] + [0])
                 if header is None or header[1] != len(clauses) or header[0] < maxv:
                     ctx.violation("dimacs_header", f"header {header} but body has {len(clauses)} clauses, max variable {maxv}")
